@@ -30,7 +30,8 @@ from harness.common import exc_name
 PID = "C11"
 TITLE = "SplitIntoBins runs the analysis per cell on exactly that cell's values"
 LEAN_MODULES = ["LenaModel.Props.C11"]
-LEAN_SOURCES = ["LenaModel/Model/C11.lean", "LenaModel/Model/C11Conc.lean", "LenaModel/Lemmas/C11.lean",
+LEAN_SOURCES = ["LenaModel/Model/C11.lean", "LenaModel/Model/C11Spec.lean", "LenaModel/Model/C11Conc.lean",
+                "LenaModel/Lemmas/C11.lean",
                 "LenaModel/Props/C11.lean"]
 DRIVER = "drivers/C11.lean"
 THEOREMS = [
@@ -71,7 +72,20 @@ THEOREMS = [
     "Lena.C11.new_rejects_seq",
     "Lena.C11.new_rejects_argvar",
     "Lena.C11.mkHistogram_ok",
-    "Lena.C11.mkHistogram_nested1",
+    "Lena.C11.mkHistogram_nested1_ok",
+    "Lena.C11.compute_twice_untyped",
+    "Lena.C11.compute_twice_typed_differs",
+    "Lena.C11.two_level_cells",
+    "Lena.C11.analysis_fillAll_eq",
+    "Lena.C11.cellToStringOpts_default",
+    "Lena.C11.cellToStringOpts_names",
+    "Lena.C11.iterateBinsInit_ok_iff",
+    "Lena.C11.mapBinsInit_ok_iff",
+    "Lena.C11.inRangeB_iff",
+    "Lena.C11.pathInB_iff",
+    "Lena.C11.lexLtB_iff",
+    "Lena.C11.isCellEdgesB_iff",
+    "Lena.C11.inCellB_iff",
     "Lena.C11.mdMapE_char",
     "Lena.C11.mdSeqMapRun_out",
     "Lena.C11.mdSeqMapRun_stop",
@@ -96,8 +110,10 @@ ASSUMPTIONS = [
     "generators are iterated to their end; iterating compute() a second time is not modelled",
     "the floating-point interpolation guess of get_bin_on_value_1d stays within [ind_min, ind_max] (C06: the result "
     "then does not depend on it); edge values and coordinates are integers in the correspondence",
-    "one-dimensional edges are given flat ([0, 1, 2]); edges [[0, 1, 2]] are accepted by SplitIntoBins.__init__ but "
-    "histogram.__init__ rejects the result in compute() (transcribed; outside the oracle)",
+    "a second compute() on the same object is modelled under the assumption that iterating an analysis' compute() "
+    "does not change its state (checked with the stateless post-sequences of the correspondence)",
+    "float cases: coordinates and edges are multiples of 1/S (S = 2, 4, 8); the real code computes with the floats, "
+    "the model with the integers S*x, and every float of a result is mapped back exactly",
 ]
 RULE = ("quick and thorough: (E) exhaustive small scope - for 1-d edges [0,2], [0,2,4], [0,1,3] and 2-d edges "
         "[[0,2],[0,2,4]] every flow of length <= 2 (thorough: <= 3 in 1-d) over all integer points from one below to one "
@@ -822,8 +838,6 @@ def _compare_spec(case, res, sp, nm):
     for k in ("lex", "pathin", "cellat"):
         if sp[k] is not True:
             return f"spec check {k} is {sp[k]}"
-    if sp["nn1"] != (not (nested and len(axes) == 1)):
-        return f"notNested1B = {sp['nn1']} for edges {case['edges']}"
     want = [{"p": None if c is None else list(c)} for c in cells]
     if sp["route"] != want:
         return f"route {sp['route']} differs from the half-open reference {want}"
@@ -1068,8 +1082,6 @@ def _oracle_iter(case, st, cfg, nm):
             if not _valid_edges(edges):
                 continue
             axes, nested = _axes(edges)
-            if nested and len(axes) == 1:
-                continue
             dims = [len(a) - 1 for a in axes]
             bins = _dec_bins(fv["h"]["bins"], nm)
             if not _regular(bins, dims):
@@ -1127,8 +1139,6 @@ def _oracle_map(case, st, cfg, nm):
             if not _valid_edges(edges):
                 continue
             axes, nested = _axes(edges)
-            if nested and len(axes) == 1:
-                continue
             dims = [len(a) - 1 for a in axes]
             bins = _dec_bins(fv["h"]["bins"], nm)
             if not _regular(bins, dims):
@@ -1178,8 +1188,7 @@ def oracle(case, res):
     nm = _names(case)
     edges = case["edges"]
     good_args = case.get("seq_ok", True) and case.get("argvar_ok", True) and _valid_edges(edges)
-    axes, nested = _axes(edges) if edges else ([], False)
-    if not good_args or (nested and len(axes) == 1):
+    if not good_args:
         return None
     try:
         ref = _reference_sib(case)
@@ -1259,6 +1268,8 @@ def _gen_step(rng, int_data, wild=False, where="pre", flt=False):
         return {"k": "count", "name": rng.choice(["n", "a"])}, int_data
     if k == "acc":
         kind = rng.choice(["sum", "sum", "store", "each", "sumcount", "count", "failempty", "sumfail"])
+        if flt and kind == "sumcount":
+            kind = "sum"       # a later accumulator would add a float sum and an integer count: not scale-invariant
         return {"k": "acc", "kind": kind}, (int_data if kind == "each" else kind != "store")
     if k == "scale":
         return {"k": "scale", "x": rng.choice([-1, 2, 3])}, int_data
@@ -1588,7 +1599,7 @@ def gen_cases(ctx):
         yield c
     for c in _systematic_two_level(ctx.tier):
         yield c
-    n = 4000 if ctx.tier == "quick" else 60000
+    n = 3000 if ctx.tier == "quick" else 60000
     for _ in range(n):
         r = rng.random()
         if r < 0.12:
